@@ -376,10 +376,14 @@ func (s *storage) fetch(br blob.Ref, offset, length int64) (rc io.ReadCloser, si
 		return nil, 0, err
 	}
 
-	if meta.file >= len(s.fds) {
-		return nil, 0, fmt.Errorf("diskpacked: attempt to fetch blob from out of range pack file %d > %d", meta.file, len(s.fds))
+	// s.fds is appended to by nextPack under s.mu while receives roll over.
+	s.mu.Lock()
+	fds := s.fds
+	s.mu.Unlock()
+	if meta.file >= len(fds) {
+		return nil, 0, fmt.Errorf("diskpacked: attempt to fetch blob from out of range pack file %d > %d", meta.file, len(fds))
 	}
-	rac := s.fds[meta.file]
+	rac := fds[meta.file]
 	var rs io.ReadSeeker
 	if length == -1 {
 		// normal Fetch mode
